@@ -85,7 +85,7 @@ def model_of(d: bytes):
 
 
 def _cap(rel):
-    with open(os.path.join(REPO, "tests", "testresources", rel)) as fh:
+    with open(os.path.join(REPO, "tests", "testresources", rel), encoding="utf-8") as fh:
         return bytes.fromhex(fh.read().strip())
 
 
@@ -97,7 +97,7 @@ def captures():
         d = os.path.join(base, sub)
         for fn in sorted(os.listdir(d)):
             try:
-                with open(os.path.join(d, fn)) as fh:
+                with open(os.path.join(d, fn), encoding="utf-8") as fh:
                     out.append((f"{sub}/{fn}", bytes.fromhex(fh.read().strip())))
             except ValueError:
                 pass
